@@ -1,31 +1,45 @@
 """C15 — `cargo libcnb package` writes complete buildpack dirs, also over stale output.
 
-Decided structurally:
+Decided structurally (on interprocedural effects with substituted arguments, so that the wipe / re-creation / writes / builds
+may live in `execute` resp. the packaging functions themselves, in private helpers, in local closures, in loops or in
+iterator pipelines — see C15_helpers):
   R1 wipe-then-assemble  per packaged node: REMOVE_TREE(dest) before MKDIR(dest) before the packaging call,
-                         all on the same destination value, and the removal's Result is not discarded
-                         (only NotFound may be tolerated)
+                         all on the same destination value, and the removal's Result is not discarded at any level
+                         it is handed up through (only NotFound may be tolerated; an `if dest.exists()` guard is allowed)
   R2 layout table        constants joined onto the destination: buildpack.toml <- fs::copy of the source
                          descriptor (byte-identical by construction), bin/build <- main binary, bin/detect
                          <- symlink with constant relative target "build", .libcnb-cargo/additional-bin/<target
                          name> <- every additional binary, package.toml
   R3 writer/reader       the two directory constants equal the literals in libcnb's
                          additional_buildpack_binary_path! macro (cross-crate sibling agreement)
-  R4 binary selection    additional = binary targets filtered by != main target; main must be among the binary
-                         targets, else an error
-  R5 stdout discipline   in cargo-libcnb the only stdout print is inside the closure fed by the filter of the
-                         packaged-dir map by the selected root nodes; it prints that directory
+  R4 binary selection    build_binary call sites as effects of build_buildpack_binaries: the one outside any iteration
+                         builds the determined target under `names.contains(target)`; the iterated one runs once per
+                         binary target name with the single per-element condition `name != main target`, and the map
+                         returned as additional_target_binary_paths is keyed by that name; a missing main is an error
+  R5 stdout discipline   in cargo-libcnb the only stdout print runs once per entry of the id -> packaged-dir map under the
+                         single per-entry condition "some selected root node has this id" (filter stage or `if`), and
+                         prints that entry's directory
 Not decided: cargo's build, contents of binaries, interrupted-run states beyond the wipe.
 """
 import re
 from .lib.discard import result_fates, verdict
-from .lib.effects import Effects, MUTATING
+from .lib.effects import Effects, MUTATING, guards_of
 from .lib.guards import conditions
 from .lib.paths import strip
 from .lib.value import vstr, walk
 from . import layer_env_common as L
+from . import C15_helpers as H
 
 EX = 'cargo_libcnb::package::command::execute'
 AS = 'libcnb_package::assemble_buildpack_directory'
+PKG = 'libcnb_package::package::package_buildpack'
+MAP_INSERT = 'std::collections::BTreeMap::<K, V, A>::insert'
+BUILD = 'libcnb_package::build::build_binary'
+SET_INSERT = 'std::collections::HashMap::<K, V, S, A>::insert'
+NAMES = 'libcnb_package::cargo::cargo_binary_target_names'
+DETERMINE = 'libcnb_package::cargo::determine_buildpack_cargo_target_name'
+DEPS = 'libcnb_package::dependency_graph::get_dependencies'
+EXISTS = ('std::path::Path::exists', 'std::path::Path::try_exists', 'std::path::Path::is_dir')
 
 
 def run(ctx, rep):
@@ -40,61 +54,62 @@ def run(ctx, rep):
     rep.analysed(ex)
     w = lambda f: '%s:%d' % (f.file, f.line)
     # ---- R1 ------------------------------------------------------------------------------------------
-    pk = [c for c in ex.calls if c.name == 'libcnb_package::package::package_buildpack']
-    if len(pk) != 1 or not ex.in_loop(pk[0].bb):
+    # stated on the effects of `execute` with the packaging call and the id -> dir map insert as vocabulary: the wipe and
+    # the re-creation may live in `execute` or in private helpers, only their destination, order and error fate matter
+    E1 = Effects(prog, sl, vocab={PKG: ('PACKAGE', 4), MAP_INSERT: ('RECORD', 2)})
+    may1 = H.expand(E1, ex, 'may')
+    pk = [e for e in may1 if e.kind == 'PACKAGE']
+    dest = None
+    if len(pk) != 1 or not H.selection(E1, pk[0]).iterations:
         rep.unproven('R1', 'package-call', w(ex), 'expected one packaging call inside the build-order loop')
     else:
         p = pk[0]
-        dest = strip(sl.operand(ex, p.args[4]))
-        rm = [c for c in ex.calls if c.is_('std::fs::remove_dir_all') and strip(sl.operand(ex, c.args[0])) == dest]
-        mk = [c for c in ex.calls if c.is_('std::fs::create_dir_all', 'std::fs::create_dir') and strip(sl.operand(ex, c.args[0])) == dest]
+        dest = strip(p.path)
+        rm = [e for e in may1 if e.kind == 'REMOVE_TREE' and strip(e.path) == dest]
+        mk = [e for e in may1 if e.kind == 'MKDIR' and e.call.is_('std::fs::create_dir_all', 'std::fs::create_dir') and strip(e.path) == dest]
         if not rm:
             rep.violated('R1', 'wipe', p.where(), 'the destination directory is not removed before packaging: stale files of an earlier run survive')
         else:
             r0 = rm[0]
-            # the removal may be conditional on the destination existing (and on nothing else)
-            gds = [cd for cd in conditions(ex, r0.bb, sl) if cd.kind == 'bool' and ex.in_loop(cd.sw_bb)]
-            only_exists = all(cd.outcome is True and cd.value[0] == 'call' and cd.value[1] in ('std::path::Path::exists', 'std::path::Path::try_exists', 'std::path::Path::is_dir')
-                              and strip(cd.value[2][0]) == dest for cd in gds)
-            anchor = gds[0].sw_bb if (gds and only_exists) else r0.bb
-            before = lambda a, b: ex.dominates(a, b) and a != b
-            order = (only_exists or not gds) and before(anchor, p.bb) and (not mk or (before(anchor, mk[0].bb) and before(mk[0].bb, p.bb))) and \
-                (not mk or r0.bb not in ex.reachable(mk[0].bb, stop=[l for L_ in [x for x in __import__('rules.lib.effects', fromlist=['find_loops']).find_loops(ex, sl)] for l in [L_.header]]))
-            rep.check(order and bool(mk), 'R1', 'order', r0.where(), 'remove_dir_all(dest) -> create_dir_all(dest) -> package into dest, on every iteration',
+            # the removal may be conditional on the destination existing (and on nothing else): per-iteration boolean
+            # decisions at every level of its call chain
+            gds = [(lv, cd, views) for lv, cd, views, _ in H.guards_by_level(E1, r0) if cd.kind == 'bool' and (lv > 0 or ex.in_loop(cd.sw_bb))]
+            only_exists = all(any(oc is True and strip(v)[0] == 'call' and strip(v)[1] in EXISTS and strip(strip(v)[2][0]) == dest for v, oc in views)
+                              for lv, cd, views in gds)
+            anchors = {}
+            rlv = H.levels(r0)
+            for lv, cd, views in gds:
+                if cd.fn is rlv[lv][0].fn:
+                    anchors.setdefault(lv, cd.sw_bb)
+            order = (only_exists or not gds) and bool(mk) and H.always_before(E1, r0, p, anchors) and H.always_before(E1, r0, mk[0], anchors) and \
+                H.always_before(E1, mk[0], p) and H.not_after(E1, r0, mk[0])
+            rep.check(order, 'R1', 'order', r0.where(), 'remove_dir_all(dest) -> create_dir_all(dest) -> package into dest, on every iteration',
                       'wipe / create / package are not in this order on every path')
-            fates = result_fates(prog, ex, r0)
-            vd = verdict(fates)
-            rep.check(vd in ('ok', 'panics'), 'R1', 'wipe-result', r0.where(), 'a failed wipe is reported',
+            flow = H.error_flow(prog, r0)
+            bad = [x for x in flow if x[4] not in ('ok', 'panics')]
+            fates = [ft for x in (bad or flow) for ft in x[3]]
+            rep.check(not bad, 'R1', 'wipe-result', r0.where(), 'a failed wipe is reported',
                       'the Result of fs::remove_dir_all(<destination>) is discarded (%s): if the old output cannot be removed (e.g. a read-only sub-directory '
                       'left by an earlier run) packaging continues over stale content and exits 0' % '; '.join(x.detail or x.kind for x in fates),
                       {'fates': [repr(x) for x in fates]})
             # when the error is matched rather than `?`-propagated: only ErrorKind::NotFound may fall through
-            if vd == 'ok' and any(x.kind == 'matched' for x in fates) and mk:
-                arm = None
-                sw = None
-                for bi, blk in enumerate(ex.blocks):
-                    t = blk['t']
-                    if t['t'] == 'switch' and t.get('oty') == 'bool':
-                        v = strip(sl.operand(ex, t['o']))
-                        if v[0] == 'call' and v[1] in ('std::cmp::PartialEq::ne', 'std::cmp::PartialEq::eq') and strip(v[2][1])[0] == 'agg' and strip(v[2][1])[2] == 'NotFound' \
-                                and strip(v[2][0])[0] == 'call' and strip(v[2][0])[1] == 'std::io::Error::kind':
-                            sw = (bi, v[1].endswith('::ne'), t)
-                            for cd in conditions(ex, bi, sl):
-                                if cd.kind == 'variant' and cd.outcome == frozenset({'Err'}) and strip(cd.subject)[0] == 'call' and strip(cd.subject)[1] == 'std::fs::remove_dir_all':
-                                    arm = cd.target
-                good = False
-                if arm is not None and sw is not None:
-                    bi, is_ne, t = sw
-                    through = mk[0].bb not in ex.reachable(arm, stop=[bi]) or arm == bi
-                    # the fall-through edge is the "kind == NotFound" edge
-                    fall = [tb for val, tb in t['targets'] if val == 0] if is_ne else [t['else']]
-                    other = t['else'] if is_ne else [tb for val, tb in t['targets'] if val == 0][0]
-                    good = through and bool(fall) and mk[0].bb in ex.reachable(fall[0]) and mk[0].bb not in ex.reachable(other)
+            matched = [x for x in flow if x[4] == 'ok' and any(ft.kind == 'matched' for ft in x[3])]
+            if not bad and matched and mk:
+                good = True
+                for lv, f, c, fts, vd in matched:
+                    # where work goes on after the wipe: the re-creation (or the packaging) when it is in the same function,
+                    # else f's success exits
+                    targets = [s.bb for s in E1.sites(f)]
+                    for nxt in (mk[0], p):
+                        if H.diverge(r0, nxt) == lv and H.levels(nxt)[lv][0].fn is f:
+                            targets = [H.levels(nxt)[lv][0].bb]
+                            break
+                    good = good and H.tolerates_only_not_found(E1, f, c, targets)
                 rep.check(good, 'R1', 'wipe-tolerance', r0.where(), 'a failed wipe is tolerated only for ErrorKind::NotFound',
                           'a failed wipe can fall through to packaging for errors other than NotFound')
         # destination = resolver(node.buildpack_id) and is what gets recorded / printed
-        ins = [c for c in ex.calls if c.name and c.name.endswith('BTreeMap::<K, V, A>::insert')]
-        okm = any(strip(sl.operand(ex, c.args[2])) == dest for c in ins)
+        rec = [e for e in may1 if e.kind == 'RECORD']
+        okm = any(strip(e.path) == dest for e in rec)
         rep.check(okm, 'R1', 'recorded', p.where(), 'the packaged directory recorded for the id is the destination that was filled', 'the id -> packaged dir map does not record the destination')
     # ---- R2 ------------------------------------------------------------------------------------------
     af = prog.fn(AS)
@@ -142,21 +157,26 @@ def run(ctx, rep):
         c2, p2 = L.loop_element(g[2].args[0])
         rep.check(c1 is not None and c1 == c2 and p1 == ('0',) and p2 == ('1',), 'R2', 'additional/name', g[2].where(), 'each additional binary copied to <dir>/<its target name>',
                   'additional binary file name is not the target name of the copied binary')
+    # package.toml / descriptor source / composite descriptor: on the effects of the two packaging functions (the writes may
+    # sit in private helpers), with assemble_buildpack_directory as a vocabulary entry so that its call sites are enumerated
     pl = prog.fn('libcnb_package::package::package_libcnb_buildpack')
     rep.analysed(pl)
-    wr = [c for c in pl.calls if c.is_('std::fs::write')]
-    ok = len(wr) == 1 and L.comps(sl.operand(pl, wr[0].args[0]), L.param_pred(pl, 4)) == ('package.toml',) and verdict(result_fates(prog, pl, wr[0])) == 'ok'
+    Ep = Effects(prog, sl, vocab={AS: ('ASSEMBLE', 0)})
+    mayp = H.expand(Ep, pl, 'may')
+    reported = lambda e: all(x[4] == 'ok' for x in H.error_flow(prog, e))
+    wr = [e for e in mayp if e.call is not None and e.call.is_('std::fs::write')]
+    ok = len(wr) == 1 and L.comps(wr[0].path, L.param_pred(pl, 4)) == ('package.toml',) and reported(wr[0])
     rep.check(ok, 'R2', 'layout/package.toml', w(pl), 'package.toml written into the destination, error propagated', 'package.toml is not written to <destination>/package.toml')
-    asm = [c for c in pl.calls if c.name == AS]
+    asm = [e for e in mayp if e.kind == 'ASSEMBLE']
     ok = len(asm) == 1
     if ok:
-        a = [strip(sl.operand(pl, x)) for x in asm[0].args]
-        ok = a[0][0] == 'param' and a[0][2] == 4 and L.comps(a[1], L.param_pred(pl, 0)) == ('buildpack.toml',)
+        a = [strip(x) for x in asm[0].args]
+        ok = a[0][0] == 'param' and a[0][1] == pl.path and a[0][2] == 4 and L.comps(a[1], L.param_pred(pl, 0)) == ('buildpack.toml',)
     rep.check(ok, 'R2', 'layout/descriptor-source', w(pl), 'buildpack.toml copied from <buildpack dir>/buildpack.toml into the destination', 'descriptor source / destination arguments changed')
     pc = prog.fn('libcnb_package::package::package_composite_buildpack')
-    cp = [c for c in pc.calls if c.is_('std::fs::copy')]
-    ok = len(cp) == 1 and L.comps(sl.operand(pc, cp[0].args[0]), L.param_pred(pc, 0)) == ('buildpack.toml',) and \
-        L.comps(sl.operand(pc, cp[0].args[1]), L.param_pred(pc, 1)) == ('buildpack.toml',) and verdict(result_fates(prog, pc, cp[0])) == 'ok'
+    cp = [e for e in H.expand(E, pc, 'may') if e.call is not None and e.call.is_('std::fs::copy')]
+    ok = len(cp) == 1 and L.comps(cp[0].args[0], L.param_pred(pc, 0)) == ('buildpack.toml',) and \
+        L.comps(cp[0].path, L.param_pred(pc, 1)) == ('buildpack.toml',) and reported(cp[0])
     rep.check(ok, 'R2', 'layout/composite-descriptor', w(pc), 'composite: buildpack.toml copied byte for byte', 'composite buildpack.toml is not a plain copy')
     # ---- R3 ------------------------------------------------------------------------------------------
     ms = [m for m in prog.macros if m['name'] == 'additional_buildpack_binary_path' and m['crate'] == 'libcnb']
@@ -169,55 +189,92 @@ def run(ctx, rep):
         rep.check(writer == lits[:2] and len(lits) >= 2, 'R3', 'dirs', '%s:%s' % (ms[0]['file'], ms[0]['line']), 'packager writes %s, runtime macro reads %s' % (writer, lits[:2]),
                   'packager places additional binaries in %s but libcnb looks them up in %s' % (writer, lits))
     # ---- R4 ------------------------------------------------------------------------------------------
+    # every way build_binary is reached from build_buildpack_binaries (directly, through a local closure, from a loop or
+    # from an iterator pipeline), with the target name in the entry function's terms and the selection it runs under
     bb = prog.fn('libcnb_package::build::build_buildpack_binaries')
     rep.analysed(bb)
-    main_build = [c for c in bb.calls if c.name == 'libcnb_package::build::build_binary' and not bb.in_loop(c.bb)]
+    E4 = Effects(prog, sl, vocab={BUILD: ('BUILD', 5), SET_INSERT: ('PUT', 1)})
+    may4 = H.expand(E4, bb, 'may')
+    builds = [(e, H.selection(E4, e)) for e in may4 if e.kind == 'BUILD']
+    has = lambda v, name: any(x[0] == 'call' and x[1] == name for x in L.walk_deep(sl, v))
+    main_build = [(e, s) for e, s in builds if not s.iterations]
     ok = len(main_build) == 1
+    t_main = None
     if ok:
-        cds = [cd for cd in conditions(bb, main_build[0].bb, sl) if cd.kind == 'bool' and cd.value[0] == 'call' and cd.value[1].endswith('::contains')]
-        ok = bool(cds) and cds[-1].outcome is True and any(x[0] == 'call' and x[1] == 'libcnb_package::cargo::cargo_binary_target_names' for x in walk(cds[-1].value[2][0])) and \
-            any(x[0] == 'call' and x[1] == 'libcnb_package::cargo::determine_buildpack_cargo_target_name' for x in walk(cds[-1].value[2][1]))
-        tv = strip(sl.operand(bb, main_build[0].args[5]))
-        ok = ok and any(x[0] == 'call' and x[1] == 'libcnb_package::cargo::determine_buildpack_cargo_target_name' for x in walk(tv))
+        e = main_build[0][0]
+        t_main = strip(e.path)
+        cds = [(v, oc) for cd, views, _ in guards_of(E4, e) if cd.kind == 'bool' for v, oc in views
+               if strip(v)[0] == 'call' and strip(v)[1].endswith('::contains') and len(strip(v)[2]) == 2]
+        ok = bool(cds) and all(oc is True for v, oc in cds) and any(has(strip(v)[2][0], NAMES) and has(strip(v)[2][1], DETERMINE) for v, oc in cds)
+        ok = ok and has(t_main, DETERMINE)
     rep.check(ok, 'R4', 'main', w(bb), 'main binary = determined target, built only if it is among the binary targets', 'main binary selection changed')
-    errs = [s for b in bb.blocks for s in b['s'] if s[0] == '=' and s[2]['r'] == 'agg' and s[2].get('variant') == 'MissingBuildpackTarget']
+    errs = [s for g in [bb] + prog.closures_of(bb) for b in g.blocks for s in b['s'] if s[0] == '=' and s[2]['r'] == 'agg' and s[2].get('variant') == 'MissingBuildpackTarget']
     rep.check(bool(errs), 'R4', 'main/missing-error', w(bb), 'missing main target is an error', 'no MissingBuildpackTarget error')
-    add_build = [c for c in bb.calls if c.name == 'libcnb_package::build::build_binary' and bb.in_loop(c.bb)]
-    ok = len(add_build) == 1
+    add_build = [(e, s) for e, s in builds if s.iterations]
+    ok = len(add_build) == 1 and t_main is not None
     if ok:
-        tv = strip(sl.operand(bb, add_build[0].args[5]))
-        coll, proj = L.loop_element(tv)
-        ok = coll is not None and coll[0] == 'call' and coll[1] == 'std::iter::Iterator::filter'
+        e, s = add_build[0]
+        tv = strip(e.path)
+        preds = H.predicates(s)
+        it = s.iterations[0]
+        # one pass over the binary target names, each element's own name handed to build_binary, the only per-element
+        # condition being "differs from the main target"
+        ok = len(s.iterations) == 1 and preds is not None and len(preds) == 1 and it.elem is not None and H.same(tv, it.elem) and has(it.base, NAMES)
         if ok:
-            src = strip(coll[2][0])
-            fcl = strip(coll[2][1])
-            body = prog.fns.get(fcl[1]) if fcl[0] == 'closure' else None
-            bv = strip(sl.local(body, 0)) if body else ('unknown',)
-            ok = bv[0] == 'call' and bv[1].endswith('::ne') and any(x[0] == 'call' and x[1] == 'libcnb_package::cargo::cargo_binary_target_names' for x in walk(src))
-        ins = [c for c in bb.calls if c.name and c.name.endswith('HashMap::<K, V, S, A>::insert') and bb.in_loop(c.bb)]
-        ok = ok and len(ins) == 1 and strip(sl.operand(bb, ins[0].args[1])) == tv
+            ok = False
+            for v, oc in H.pred_views(preds[0]):
+                v = strip(v)
+                if v[0] == 'call' and len(v[2]) == 2 and ((v[1].endswith('::ne') and oc is True) or (v[1].endswith('::eq') and oc is False)):
+                    a, b = v[2]
+                    ok = ok or (H.same(a, it.elem) and H.same(b, t_main)) or (H.same(b, it.elem) and H.same(a, t_main))
+        # keyed by target name: entries put into the map that is returned as `additional_target_binary_paths`
+        amap = [fv for x in walk(sl.local(bb, 0)) if x[0] == 'agg' and (x[1] or '').endswith('BuildpackBinaries') for fn_, fv in x[3] if fn_ == 'additional_target_binary_paths']
+        keys = []
+        if len(amap) == 1:
+            av = strip(amap[0])
+            for pe in may4:
+                if pe.kind == 'PUT' and H.same(pe.args[0], av):
+                    ps = H.selection(E4, pe)
+                    keys.append(strip(pe.path) if (len(ps.iterations) == 1 and H.same(ps.iterations[0].recv, it.recv)) else None)
+            if not keys and any(x[0] == 'call' and x[1] in H.iters.COLLECTING for x in walk(av)):
+                # built by collecting (key, value) pairs
+                for el, coll, fl in H.iters.alts(sl, av):
+                    pair = strip(sl.mk_unwrap(el, 1))
+                    keys.append(strip(pair[1][0]) if (pair[0] == 'tuple' and len(pair[1]) == 2) else None)
+        ok = ok and len(keys) == 1 and keys[0] is not None and H.same(keys[0], tv)
     rep.check(ok, 'R4', 'additional', w(bb), 'additional binaries = all binary targets != main, keyed by their target name', 'additional binary selection changed')
     # ---- R5 ------------------------------------------------------------------------------------------
     prints = [(g, c) for g in prog.fns.values() if g.crate == 'cargo_libcnb' for c in g.calls if c.is_('std::io::_print')]
     rep.check(len(prints) == 1, 'R5', 'count', w(ex), 'exactly one stdout print in cargo-libcnb', 'stdout is written at %s' % [c.where() for g, c in prints])
     if len(prints) == 1:
         g, c = prints[0]
-        ok = g.parent == EX and g.kind == 'Closure'
-        fe = [x for x in ex.calls if x.name == 'std::iter::Iterator::for_each' and any(y[0] == 'closure' and y[1] == g.path for y in walk(sl.operand(ex, x.args[1])))]
-        ok = ok and len(fe) == 1
+        # the print as an effect of `execute`: it runs once per entry of the id -> packaged dir map (a for loop or a
+        # for_each closure), under exactly one per-entry condition: some selected root node has that id
+        pe = [e for e in may1 if e.kind == 'PRINT_OUT']
+        ok = len(pe) == 1 and pe[0].call is c
+        printed_ok = False
         if ok:
-            it = strip(sl.operand(ex, fe[0].args[0]))
-            ok = it[0] == 'call' and it[1] == 'std::iter::Iterator::filter'
+            e = pe[0]
+            s = H.selection(E1, e)
+            preds = H.predicates(s)
+            maps = [strip(r.args[0]) for r in may1 if r.kind == 'RECORD' and dest is not None and strip(r.path) == dest]
+            roots = [x[2][1] for x in L.walk_deep(sl, dest) if x[0] == 'call' and x[1] == DEPS and len(x[2]) > 1] if dest is not None else []
+            ok = len(s.iterations) == 1 and preds is not None and len(preds) == 1 and len(maps) == 1 and bool(roots)
             if ok:
-                src = strip(it[2][0])
-                fcl = strip(it[2][1])
-                src_ok = any(x[0] == 'call' and x[1].endswith('BTreeMap::<K, V>::new') for x in walk(src))
-                body = prog.fns.get(fcl[1]) if fcl[0] == 'closure' else None
-                bv = strip(sl.local(body, 0)) if body else ('unknown',)
-                sel_ok = bv[0] == 'call' and bv[1].endswith('::any') and any(x[0] == 'call' and x[1].endswith('unwrap_or_default') for x in walk(bv))
+                it = s.iterations[0]
+                src_ok = H.same(it.base, maps[0])
+                sel_ok = False
+                for v, oc in H.pred_views(preds[0]):
+                    v = strip(v)
+                    if v[0] == 'call' and v[1].endswith('::any') and oc is True and v[2]:
+                        over = H.decompose(sl, v[2][0])
+                        sel_ok = sel_ok or (not over[1] and not over[2] and any(H.same(over[0], r) for r in roots))
                 ok = src_ok and sel_ok
-        # the printed value is the map value (packaged dir)
-        pv = [sl.operand(g, a) for a in c.args]
-        printed_ok = any(x[0] == 'call' and x[1].endswith('to_string_lossy') and strip(x[2][0])[0] in ('field', 'param') for v in pv for x in walk(v))
+                # the printed value is the map value (packaged dir) of that entry
+                for av in e.args or ():
+                    for x in walk(av):
+                        if x[0] == 'call' and x[1].endswith('to_string_lossy') and x[2]:
+                            coll, proj = L.loop_element(x[2][0])
+                            printed_ok = printed_ok or (coll is not None and H.same(coll, maps[0]) and proj == ('1',))
         rep.check(ok and printed_ok, 'R5', 'selection', c.where(), 'prints the packaged directory of each selected root buildpack',
                   'the stdout print is not the for_each over the packaged dirs filtered by the selected root nodes')
